@@ -8,6 +8,7 @@ import Astm.Model.Simulator
 import Astm.Model.Archive
 import Astm.Model.Fields
 import Astm.Generated.Schemas
+import Astm.Model.Heap
 
 open Astm Astm.Wire
 
@@ -90,6 +91,36 @@ def findRecordSpec (modName letter : String) : Option Astm.Schema.RecordSpec := 
   let m ← Astm.Gen.schemas.find? (·.name == modName)
   m.records.find? (·.letter == letter)
 
+def parseV (t : String) : Option Astm.Fields.V :=
+  if t == "n" then some none else if t.startsWith "t" then (parseCps (t.drop 1).toString).map some else none
+
+def parseKvs (t : String) : Option (List (String × Astm.Fields.V)) :=
+  if t == "-" then some [] else
+  (t.splitOn ",").mapM fun kv => match kv.splitOn "=" with
+    | [k, v] => (parseV v).map fun x => (k, x)
+    | _ => none
+
+def parseHeapOp (modName : String) (toks : List String) : Option Astm.Heap.Op :=
+  match toks with
+  | ["C", letter, now, rec] => do
+    let S ← findRecordSpec modName letter
+    let n ← parseCps now
+    let r ← parseRecord rec
+    pure (.construct S n r)
+  | ["S", r, fld, sub, v] => do pure (.setSub (← r.toNat?) fld sub (← parseV v))
+  | ["RS", r, fld, i, sub, v] => do pure (.setRepSub (← r.toNat?) fld (← i.toNat?) sub (← parseV v))
+  | ["AP", r, fld, kvs] => do pure (.appendRep (← r.toNat?) fld (← parseKvs kvs))
+  | ["AC", r, fld, kvs] => do pure (.assignComp (← r.toNat?) fld (← parseKvs kvs))
+  | ["N", r, fld] => do pure (.assignNone (← r.toNat?) fld)
+  | _ => none
+
+def showDict (d : Astm.Fields.Dict) : String := " ".intercalate (d.map fun kv => kv.1 ++ ":" ++ showFV kv.2)
+
+def showWorld (W : Astm.Heap.World) : String :=
+  " || ".intercalate ((List.range W.recs.length).map fun i => match Astm.Heap.render W i with
+    | some d => showDict d
+    | none => "DANGLING")
+
 def showConn (s : Conn) : String :=
   s!"{if s.inTransfer then 1 else 0} [{",".intercalate (s.chunks.map toHex)}] [{",".intercalate (s.messages.map toHex)}]"
 
@@ -144,6 +175,16 @@ def handle (toks : List String) : String :=
       "ok " ++ " ; ".intercalate (outs.map showTOut) ++ " | " ++ ",".intercalate live
     | _, _ => "bad-arg"
   | ["default-timeout"] => s!"ok {TIMEOUT}"
+  | "heap" :: modName :: rest =>
+    -- ops separated by ";" tokens; prints the rendering of all records after every op
+    let groups := (rest.splitOn ";").filter (· ≠ [])
+    match groups.mapM (parseHeapOp modName) with
+    | some ops =>
+      let (_, outs) := ops.foldl (fun (acc : Astm.Heap.World × List String) op =>
+        let W' := Astm.Heap.step acc.1 op
+        (W', acc.2 ++ [showWorld W'])) (({} : Astm.Heap.World), [])
+      "ok " ++ " ## ".intercalate outs
+    | none => "bad-arg"
   | ["datefield", kind, v] =>
     -- DateField / TimeField / DateTimeField._set_value on a str
     match parseCps (if v == "-" then "" else v) with
